@@ -62,6 +62,32 @@ fn corpora() -> Vec<Corpus> {
                  ],
                  noise: vec!["", "a;b;notayear;c", "ip;hostname;year;month;day;hour;minute;second", "1.2.3.4;h"],
                  combine: Some("SELECT month, COUNT(*) AS n, SUM(day) AS s, MIN(hour) AS lo, MAX(hour) AS hi FROM connections GROUP BY month") },
+        Corpus { name: "ftpd-timestamp", defs: "/repo/testdata/ftpd_timestamp.txt", data: "/repo/testdata/ftpd_data.txt",
+                 queries: vec![
+                     q("SELECT ip, timestamp FROM connections WHERE timestamp > '2005-06-18 00:00:00' AND hostname IS NOT NULL", false, false),
+                     q("SELECT DISTINCT date_trunc('hour', timestamp) AS h FROM connections", false, false),
+                     q("SELECT ip, EXTRACT(HOUR FROM timestamp) AS h, timestamp + ('1:30:00'::interval) AS later FROM connections WHERE EXTRACT(DAY FROM timestamp) IN (17, 18)", false, false),
+                     q("SELECT date_trunc('day', timestamp) AS d, COUNT(*) AS n, MIN(timestamp) AS first, MAX(timestamp) AS last FROM connections GROUP BY date_trunc('day', timestamp)", true, true),
+                     q("SELECT hostname, COUNT(*) AS n, MAX(timestamp) AS last FROM connections GROUP BY hostname HAVING MAX(timestamp) >= '2005-06-18 00:00:00'", true, true),
+                     q("SELECT EXTRACT(HOUR FROM timestamp) AS h, COUNT(DISTINCT ip) AS ips FROM connections GROUP BY EXTRACT(HOUR FROM timestamp)", true, true),
+                 ],
+                 noise: vec!["", "#### noise ####", "connection from", "\t  \t"],
+                 combine: None },
+        Corpus { name: "ftpd-array", defs: "/repo/testdata/ftpd_array.txt", data: "/repo/testdata/ftpd_data.txt",
+                 queries: vec![
+                     q("SELECT ip, timestamp[1] AS year, timestamp[2] AS month, array_length(timestamp) AS n FROM connections WHERE timestamp[3] = '17'", false, false),
+                     q("SELECT DISTINCT timestamp[2] AS month, timestamp[3] AS day FROM connections", false, false),
+                     q("SELECT timestamp[3] AS day, COUNT(*) AS n, MIN(timestamp[4]) AS first_hour FROM connections GROUP BY timestamp[3]", true, true),
+                 ],
+                 noise: vec!["", "#### noise ####", "connection from"],
+                 combine: None },
+        Corpus { name: "ftpd-default", defs: "/repo/testdata/ftpd_default.txt", data: "/repo/testdata/ftpd_data.txt",
+                 queries: vec![
+                     q("SELECT ip, hostname FROM connections WHERE hostname = 'unknown'", false, false),
+                     q("SELECT hostname, COUNT(*) AS n, MIN(day) AS lo FROM connections GROUP BY hostname", true, true),
+                 ],
+                 noise: vec![],
+                 combine: Some("SELECT hostname, COUNT(*) AS n, SUM(day) AS s, MIN(day) AS lo, MAX(day) AS hi FROM connections GROUP BY hostname") },
         Corpus { name: "dummy-join", defs: "/repo/testdata/dummy.txt", data: "/repo/testdata/dummy1_data.txt",
                  queries: vec![
                      q("SELECT hostname, min, dummy2.max FROM dummy1 INNER JOIN dummy2::'/repo/testdata/dummy2_data.txt' ON dummy1.hostname=dummy2.hostname", false, false),
@@ -183,11 +209,13 @@ pub fn trace(seed: u64, n: usize) -> Vec<J> {
         ev.push(json!({"ev": "base", "corpus": c.name, "query": qu.sql, "lines": len, "agg": qu.agg, "status": status, "out": base}));
         if status != "ok" { continue; }
 
-        // C06 noise
+        // C06 noise (a table with a DEFAULT column has no noise lines: the default alone makes every line a row)
+        if !c.noise.is_empty() {
         let mut noisy = lines.clone();
         for _ in 0..rng.gen_range(1..5) { let p = rng.gen_range(0..=noisy.len()); noisy.insert(p, c.noise[rng.gen_range(0..c.noise.len())].to_string()); }
         let (o, st, _) = run(&mut ctx, &tables, qu.sql, &[&noisy], &none);
         ev.push(json!({"ev": "law", "law": "noise", "status": st, "out": o}));
+        }
 
         // C12 concat
         let c1 = rng.gen_range(0..=lines.len()); let c2 = rng.gen_range(c1..=lines.len());
